@@ -15,7 +15,7 @@ from . import classes as C
 from .trusted import View, RangeV, LazySeq
 
 ALLOC0 = z3.Int("alloc0")          # references below alloc0 existed before the call
-FEAS_TIMEOUT_MS = 4000
+FEAS_TIMEOUT_MS = 1200
 
 
 class Meta(object):
@@ -184,8 +184,11 @@ class Executor(object):
         s = z3.Solver()
         s.set("timeout", FEAS_TIMEOUT_MS)
         s.add(*solve.base_facts())
-        s.add(*st.pc)
-        s.add(*solve.wf_ties(list(st.pc) + [g for g in guards if z3.is_expr(g)]))
+        # quantified facts are left out of feasibility queries: with them z3 answers `unknown` instead of
+        # `sat`; dropping hypotheses only keeps more paths (sound), the obligations see the full context
+        pc = [f for f in st.pc if not z3.is_quantifier(f)]
+        s.add(*pc)
+        s.add(*solve.wf_ties(pc + [g for g in guards if z3.is_expr(g)]))
         return s
 
     def feasible(self, st, extra=None):
@@ -445,6 +448,18 @@ class Executor(object):
                     break
         if pycls is not None:
             return self.obj_getattr(st, v, pycls, attr)
+        if attr == "__name__" and z3.is_expr(v):
+            # type(x).__name__ / f.__name__
+            tid = Val.tid(v)
+            names = {-1: "NoneType", -2: "bool", -3: "int", -4: "float", -5: "str", -6: "bytes", -7: "list",
+                     -8: "tuple", -9: "set", -10: "frozenset", -11: "dict", -12: "type", -13: "function"}
+            nm = C.cname(tid)
+            for k, txt in names.items():
+                nm = z3.If(tid == k, z3.StringVal(txt), nm)
+            fun_name = z3.Function("fun_name", z3.IntSort(), z3.StringSort())
+            alts = [(V.is_type(v), ("val", V.VStr(nm))), (V.is_fun(v), ("val", V.VStr(fun_name(Val.fid(v))))),
+                    (z3.Not(z3.Or(V.is_type(v), V.is_fun(v))), ("raise", AttributeError))]
+            return self.apply_op(st, alts, "__name__")
         # a Val of unknown static class: methods of builtin containers / strings
         return [(st, ("val", BoundMeth(v, attr)))]
 
@@ -518,6 +533,12 @@ class Executor(object):
     def eval_slice(self, st, v, sl):
         if sl.step is not None:
             raise Unsupported("slice step")
+        if isinstance(v, Meta):
+            lo = sl.lower.value if isinstance(sl.lower, ast.Constant) else None
+            hi = sl.upper.value if isinstance(sl.upper, ast.Constant) else None
+            if (sl.lower is not None and lo is None) or (sl.upper is not None and hi is None):
+                raise Unsupported("meta slice with dynamic bounds")
+            return [(st, ("val", Meta(v.py[lo:hi])))]
         parts = [p for p in (sl.lower, sl.upper) if p is not None]
 
         def go(s, vals):
@@ -799,6 +820,8 @@ class Executor(object):
             s = st.copy()
             e = self.make_exc(s, pycls, V.mk_tuple([self.lift(a) for a in args]))
             return [(s, ("val", e))]
+        if issubclass(pycls, dict) and not args and not kwargs and init is dict.__init__:
+            return [(st, ("val", V.empty_dict()))]       # dict subclasses without state (LocalClasses)
         s = st.copy()
         obj = s.alloc(pycls)
         if init is object.__init__:
